@@ -148,7 +148,10 @@ theorem wrap64_of_range {n : Int} (h : int64Range n) : wrap64 n = n := by
 
 theorem normalizeLabel_flat {l : GoVal} (hl : FlatLabel l) : normalizeLabel l = some (normVal l) := by
   cases l <;> simp only [FlatLabel] at hl
-  case int k n => simp only [normalizeLabel, normVal, wrap64_of_range hl]
+  case int k n =>
+    have hle : n ≤ (maxInt64 : Int) := by
+      have := hl; unfold int64Range at this; simp only [maxInt64]; omega
+    simp only [normalizeLabel_int_of_le k hle, normVal, wrap64_of_range hl]
   case str b => rfl
 
 theorem normVal_label_normal {l : GoVal} (hl : FlatLabel l) :
@@ -476,7 +479,7 @@ theorem validate_normEntry {g : GoMap} (prot : Bool) (hf : FlatMap g) (hu : ∀ 
   · simp only [normEntry]; rw [normalizeLabel_normVal (hf e he).1, h1]
   · have hhas : ∀ x, normalizeLabel x ≠ none → hasLabel g x = hasLabel (g.map normEntry) x :=
       fun x hx => C13.hasLabel_congr_norm g _ (normLabels_normEntry hf).symm x x rfl hx
-    rw [← C13.checkParam_congr g _ hhas]
+    rw [← C13.checkParam_congr g _ hhas hok.1 (labelsOK_normEntry hf hok).1]
     exact checkParam_normVal g prot l (hf e he).2 (hu e he) h2
 
 /-! ### the alg retyping of the protected-header decoder -/
